@@ -777,23 +777,12 @@ func vC15NameCase(tr *vC15Trace, r *rand.Rand) {
 
 func vC15Steps(rr dns.RR) (string, bool) {
 	b := func(x []byte) string { return "SBytes " + vc15gen.VC15CoqBytes(string(x)) }
-	nameStep := func(n string, c bool) string { return fmt.Sprintf("SName %s %s", vC15CoqName(n), vC15Bool(c)) }
 	if term, ok := vC15Typed(rr); ok {
 		return term, true
 	}
 	switch v := rr.(type) {
 	case *dns.A, *dns.AAAA, *dns.L32, *dns.LOC, *dns.NSEC3, *dns.NSEC3PARAM, *dns.SVCB, *dns.HTTPS, *dns.IPSECKEY, *dns.AMTRELAY:
 		return "", false // a typed layout exists but this value is outside it
-	case *dns.NS:
-		return "[" + nameStep(v.Ns, true) + "]", true
-	case *dns.CNAME:
-		return "[" + nameStep(v.Target, true) + "]", true
-	case *dns.PTR:
-		return "[" + nameStep(v.Ptr, true) + "]", true
-	case *dns.MX:
-		return "[" + b([]byte{byte(v.Preference >> 8), byte(v.Preference)}) + ";" + nameStep(v.Mx, true) + "]", true
-	case *dns.DNAME:
-		return "[" + nameStep(v.Target, false) + "]", true
 	case *dns.NULL:
 		return "[" + b([]byte(v.Data)) + "]", true
 	case *dns.OPT:
@@ -828,71 +817,6 @@ func vC15Steps(rr dns.RR) (string, bool) {
 			parts = append(parts, b([]byte{byte(c >> 8), byte(c), byte(l >> 8), byte(l)}), b(data))
 		}
 		return "[" + strings.Join(parts, ";") + "]", true
-	case *dns.TXT:
-		if len(v.Txt) == 0 {
-			return "[SPoke0]", true // packTxt: msg[offset] = 0; return offset
-		}
-		var parts []string
-		for _, s := range v.Txt {
-			if strings.Contains(s, "\\") || len(s) > 255 {
-				return "", false
-			}
-			parts = append(parts, b(append([]byte{byte(len(s))}, s...)))
-		}
-		return "[" + strings.Join(parts, ";") + "]", true
-	case *dns.HINFO:
-		if strings.Contains(v.Cpu+v.Os, "\\") || len(v.Cpu) > 255 || len(v.Os) > 255 {
-			return "", false
-		}
-		return "[" + b(append([]byte{byte(len(v.Cpu))}, v.Cpu...)) + ";" + b(append([]byte{byte(len(v.Os))}, v.Os...)) + "]", true
-	case *dns.CAA:
-		if strings.Contains(v.Tag+v.Value, "\\") || len(v.Tag) > 255 {
-			return "", false
-		}
-		val := b([]byte(v.Value))
-		if v.Value == "" {
-			val = "SRoom1" // packOctetString refuses offset >= len(msg) before it looks at the string
-		}
-		return "[" + b([]byte{v.Flag}) + ";" + b(append([]byte{byte(len(v.Tag))}, v.Tag...)) + ";" + val + "]", true
-	case *dns.SOA:
-		return "[" + nameStep(v.Ns, true) + ";" + nameStep(v.Mbox, true) + ";" + b(vC15U32s(v.Serial, v.Refresh, v.Retry, v.Expire, v.Minttl)) + "]", true
-	case *dns.SRV:
-		return "[" + b([]byte{byte(v.Priority >> 8), byte(v.Priority), byte(v.Weight >> 8), byte(v.Weight), byte(v.Port >> 8), byte(v.Port)}) + ";" + nameStep(v.Target, false) + "]", true
-	case *dns.DS:
-		d, err := hex.DecodeString(v.Digest)
-		if err != nil {
-			return "", false
-		}
-		return "[" + b([]byte{byte(v.KeyTag >> 8), byte(v.KeyTag), v.Algorithm, v.DigestType}) + ";" + b(d) + "]", true
-	case *dns.TLSA:
-		d, err := hex.DecodeString(v.Certificate)
-		if err != nil {
-			return "", false
-		}
-		return "[" + b([]byte{v.Usage, v.Selector, v.MatchingType}) + ";" + b(d) + "]", true
-	case *dns.DNSKEY:
-		d, err := base64.StdEncoding.DecodeString(v.PublicKey)
-		if err != nil || len(d)%3 != 0 { // padded forms: Len() over-counts (DecodedLen); kept out of this model
-			return "", false
-		}
-		return "[" + b([]byte{byte(v.Flags >> 8), byte(v.Flags), v.Protocol, v.Algorithm}) + ";" + b(d) + "]", true
-	case *dns.RRSIG:
-		d, err := base64.StdEncoding.DecodeString(v.Signature)
-		if err != nil || len(d)%3 != 0 {
-			return "", false
-		}
-		fixed := append([]byte{byte(v.TypeCovered >> 8), byte(v.TypeCovered), v.Algorithm, v.Labels}, vC15U32s(v.OrigTtl, v.Expiration, v.Inception)...)
-		fixed = append(fixed, byte(v.KeyTag>>8), byte(v.KeyTag))
-		return "[" + b(fixed) + ";" + nameStep(v.SignerName, false) + ";" + b(d) + "]", true
-	case *dns.NSEC:
-		bm, ok := vC15Bitmap(v.TypeBitMap)
-		if !ok {
-			return "", false
-		}
-		if len(bm) == 0 {
-			return "[" + nameStep(v.NextDomain, false) + "]", true
-		}
-		return "[" + nameStep(v.NextDomain, false) + ";" + b(bm) + "]", true
 	}
 	return vC15TagWalk(rr)
 }
@@ -1018,6 +942,48 @@ func vC15ConcreteOptions(r *rand.Rand) []dns.EDNS0 {
 	return out
 }
 
+// vC15Force, when set, is a record the next concrete case must carry (the per-type sweep).
+var vC15Force dns.RR
+
+// vC15ConcreteSweep: one concrete case per registered record type (the first value out of 40
+// drawn from the struct-tag generator that the step model expresses), and a census line naming
+// the types for which no value was expressible — the types that stay under rdata_plan_ok.
+func vC15ConcreteSweep(tr *vC15Trace, r *rand.Rand) {
+	var never, partial []string
+	for _, t := range vc15gen.VC15Types() {
+		if t == dns.TypeOPT {
+			continue // carried by the concrete cases themselves
+		}
+		var pickRR dns.RR
+		okN := 0
+		for try := 0; try < 40 || (pickRR == nil && try < 400); try++ {
+			rr := vc15gen.VC15LibRR(r, t)
+			rr.Header().Name = "host.example.org."
+			if _, ok := vC15Steps(rr); ok {
+				if try < 40 {
+					okN++
+				}
+				if pickRR == nil || r.Intn(3) == 0 {
+					pickRR = rr
+				}
+			}
+		}
+		name := dns.TypeToString[t]
+		if pickRR == nil {
+			never = append(never, name)
+			continue
+		}
+		if okN < 40 {
+			partial = append(partial, fmt.Sprintf("%s:%d/40", name, okN))
+		}
+		vC15Force = pickRR
+		vC15ConcreteCase(tr, r)
+		vC15Force = nil
+	}
+	tr.emit(map[string]any{"k": "concrete/census", "nontrivial": true,
+		"desc": map[string]any{"registered": len(vc15gen.VC15Types()), "never_expressible": never, "partly_expressible": partial}})
+}
+
 // vC15ConcreteCase builds a message from records the concrete model can decompose, packs
 // it through TryPack on a dirty pool and through the library, and records all bytes.
 func vC15ConcreteCase(tr *vC15Trace, r *rand.Rand) {
@@ -1109,6 +1075,9 @@ func vC15ConcreteCase(tr *vC15Trace, r *rand.Rand) {
 		}
 		h.Rrtype = dns.TypeA
 		return &dns.A{Hdr: h, A: net.IPv4(10, 0, 0, byte(r.Intn(256))).To4()}
+	}
+	if vC15Force != nil {
+		m.Answer = append(m.Answer, vC15Force)
 	}
 	for i := r.Intn(4); i > 0; i-- {
 		m.Answer = append(m.Answer, mk())
@@ -1472,6 +1441,7 @@ func TestVerifC15Wire(t *testing.T) {
 	for c := 0; c < 30+n/10; c++ {
 		vC15ConcreteCase(tr, r)
 	}
+	vC15ConcreteSweep(tr, r)
 	vC15PlanPremise(tr, r, 2+n/500)
 	runtime.GOMAXPROCS(prev)
 	if runtime.GOMAXPROCS(0) < 4 {
